@@ -10,6 +10,13 @@ KS_NOTE = ("Trusted: TLC, the transcription of the Redis command reference in sp
            "(memdb/verif_inspect.go). B1 is exhaustive only within the instance bounds; B2 is sampled.")
 
 CHECKS = {
+    "C02": dict(cat="model_checking", ref="§C02", technique="TLA+ RespParser.tla (reference decoder + chunked parser state machine; ChunkingIndependence, OutIsPrefix, NothingAfterStop, Exactness checked by TLC). B1 TLC-emitted test vectors replayed on resp.ParseStream under exhaustive and adversarial read schedules, with a crash-attributing child driver. TCP replay on the real binary with a liveness probe connection and byte-exact argument echo. B2 seeded random binary pipelines over TCP.",
+                text="The chunked RESP parser state machine of spec/RespParser.tla is model checked by TLC against the reference decoder under every read schedule (chunking independence, nothing delivered after a stop, exact round trip of Enc over arguments containing CR, LF, NUL, $, * and the empty string). TLC prints every byte string over {*,$,1,2,-,a,CR,LF} up to length 5 (quick) / 7 (thorough), 1-3 command pipelines over 7 argument values, every single-point mutation of well-formed streams, and declared lengths up to 2^63. Each is replayed on the real resp.ParseStream under every split of streams up to 10 bytes, with adversarial and seeded splits for longer streams. Crashers, all declared-length vectors and a seeded sample are replayed on the real server binary over TCP with a second connection that must keep answering PING. Random binary pipelines (arguments up to 64 KB) are reply-matched over TCP.",
+                note="Trusted: TLC; the classification of spec/RespParser.tla (malformed = bare LF, non-integer or < -1 length, bulk not followed by CRLF; well-formed non-commands and odd length spellings are 'unspec' and only require the commands before them, no crash, no hang); the independent RESP codec in lib/server.py. Exhaustive only within the stated alphabet and lengths. B2 replies are matched against a Python dictionary model, not by TLC. Process deaths of the in-process driver are verdicts only when reproduced on the real binary. Hang verdicts use a 2 s watchdog confirmed twice with doubled bounds."),
+    "C16": dict(cat="fault_enumeration", ref="§C16", technique="TLA+ model (Wal.tla, Snap.tla) model-checked by TLC for RecoveredIsPrefix, TornTailRepairable, AppendAfterRecoveryIsClean, CorruptionNeverAccepted, SnapFallback with must-fail sensitivity instances; B1 scenario emission and replay on real files (walsim); B2 TLC trace validation (TraceWal.tla); bounded-exhaustive byte corruption on real files",
+                text="Every terminal state of bounded TLC instances of an explicit TLA+ model of the WAL (word/sector layout, Save/SaveSnapshot/cut with the page-writer and MustSync rules, every subset of unsynced sectors lost, a crash inside cut(), single-word corruption, recovery by ReadAll+Repair, reopen+append+second crash) is replayed on real files through the real wal package and judged by the prefix contract computed from what was handed to Save. In addition every byte offset of every file of closed WAL images and of 1-3-file snapshot sets is XOR-ed with 0x01/0x80/0xFF and read by all readers; snapshot files are also truncated at every length and hit with every lost-sector subset; seeded random crash scenarios with 0-40 KB payloads are validated by TLC against TraceWal.tla.",
+                note="Trusted: TLC; the harness's independent frame/protobuf/CRC parser and its Go contract (cross-checked by TraceWal.tla with planted rejections); the sector-atomic crash materialisation (complete the save, then revert sectors; file size kept; ZeroToEnd and Repair durable). The CRC is abstract in the model. Exhaustive only within instance bounds. Known findings C16-F01 and C16-F02 are reproduced every run; one ambiguity (stale superseded entry when opening at a snapshot) is counted, not flagged.",
+                replay="env PYTHONPATH=/verif/lib python3 /verif/checks/C16.py replay {path}"),
     "C07": dict(cat="model_checking", ref="§C07", technique="TLA+ model of the cluster layer above the agreed log (ClusterLin.tla: ReplicaAgreement, AckedExactlyOnce, OwnReply, RealTime checked by TLC); histories of concurrent TCP clients on real multi-process clusters under kill/restart/pause schedules checked for linearizability by TLC (TraceLin.tla) with per-node read-back",
                 text="Real 3-node (thorough: also 5-node) clusters of the real binary are driven by concurrent clients on all nodes while nodes are killed, restarted and paused; the complete invocation/response history, ending with a read-back of every key through every node's own port, must be linearizable against the keyspace spec (unanswered commands may or may not take effect), and no node may die by itself. Replica agreement for commands depending on local randomness or clock is probed separately (recorded findings).",
                 note="Trusted: TLC, TraceLin/Keyspace specs, process-level fault injection on one host (no network shim). Consensus itself is C15's subject. Inconclusive scenarios (cluster not ready) are skipped and counted."),
@@ -75,7 +82,7 @@ def main():
             "quick_cmd": "bin/check %s quick" % pid,
             "thorough_cmd": "bin/check %s thorough" % pid,
             "evidence_file": "/verif/evidence/%s.json" % pid,
-            "replay_cmd_template": "cat {path}",
+            "replay_cmd_template": c.get("replay", "cat {path}"),
             "engine": "tlc+harness",
             "level_claimed": {"category": c["cat"], "text": c["text"], "design_ref": c["ref"]},
             "level_note": c["note"],
